@@ -21,12 +21,12 @@ import (
 func TestMain(m *testing.M) { vt.Main(m) }
 
 type Script struct {
-	Headers   []string `json:"headers"`   // Authorization header values, in order (nil: absent)
-	Verifier  string   `json:"verifier"`  // ok invalid oauth other nilinfo both
+	Headers   []string `json:"headers"`  // Authorization header values, in order (nil: absent)
+	Verifier  string   `json:"verifier"` // ok invalid oauth other nilinfo both
 	NilOpts   bool     `json:"nil_opts"`
 	Required  []string `json:"required"`
 	Granted   []string `json:"granted"`
-	ExpKind   string   `json:"exp_kind"`  // zero | rel
+	ExpKind   string   `json:"exp_kind"`   // zero | rel
 	ExpRelNS  int64    `json:"exp_rel_ns"` // expiration = now + rel
 	StripMono bool     `json:"strip_mono"`
 	SkewNS    int64    `json:"skew_ns"`
